@@ -1,6 +1,6 @@
 # Sizing and claim for C05 (buffer histories)
 SPEC = {
-    "quick": {"rc_cases": 50000, "rc_procs": 12, "enum": True, "enum_shards": 16},
+    "quick": {"rc_cases": 40000, "rc_procs": 12, "enum": True, "enum_shards": 16},
     "thorough": {"rc_cases": 120000, "rc_procs": 12, "enum": True, "enum_shards": 16, "fuzz_secs": 180, "fuzz_workers": 8},
     "assumptions": [
         "the allocation registry (harness/common/alloc_track.h) sees every operator new/delete of the process; blocks are attributed to the library when allocated inside a library call",
